@@ -99,3 +99,29 @@ def run(regs: Dict[str, int], mem: List[List[int]], n: int = 1, default: int = 0
         if s["err"]:
             break
     return {"steps": steps, "_emu": emu, "_mem": sm}
+
+
+_long = None
+
+
+def run_longlived(regs: Dict[str, int], mem: List[List[int]], default: int = 0, hashed: bool = False) -> Dict[str, Any]:
+    """One instruction on a process-wide, long-lived Emulator whose memory image and registers are replaced before every
+    call: what a debugger session or a machine running self-modifying / freshly loaded code does.  Anything the emulator
+    keeps between instructions besides registers and memory (decoder caches, look-ahead buffers, bookkeeping) is carried
+    from one call to the next."""
+    global _long
+    if _long is None:
+        sm = SparseMem({}, default, hashed)
+        _long = (new_emulator(sm), sm)
+    emu, sm = _long
+    sm.mem = {a: v for a, v in mem}
+    sm.default, sm.hashed = default, hashed
+    try:
+        emu.state.halted = False
+    except Exception:      # noqa: BLE001
+        pass
+    set_regs(emu, regs)
+    s = step(emu, sm)
+    if s["err"]:
+        _long = None          # do not let a failed step shape the next record
+    return {"steps": [s], "_emu": emu, "_mem": sm}
